@@ -378,13 +378,20 @@ def evaluate(e, lookup=None):
     """lookup(name) -> Val or None (unknown).  Raises Undefined / DimErr / OutOfScope.
     A result carries .f = True when a machine float took part (roots); its value is then only
     meaningful up to float precision and callers compare with a tolerance."""
+    MAX_BITS_SEEN[0] = 0
     r = _evaluate(e, lookup)
     return r
+
+
+MAX_BITS_SEEN = [0]      # largest intermediate (numerator+denominator bits) of the current evaluation
 
 
 def _flt(res, *ops):
     if any(o.f for o in ops):
         res.f = True
+    b = res.v.numerator.bit_length() + res.v.denominator.bit_length()
+    if b > MAX_BITS_SEEN[0]:
+        MAX_BITS_SEEN[0] = b
     return res
 
 
